@@ -116,7 +116,8 @@ union U @svc(s: "A") = Cat | Dog
 // a boundary type that belongs to abstract types of two services: Gizmo implements Tool in A and Priced in B and is a
 // member of B's union Found; every abstract type has a non-boundary member of its own service beside it.  Both members of
 // Tool have a maker, whose fields two further services own (the same response key may then stand for different fields
-// under the two members)
+// under the two members).  Gizmo and Wrench get their keeper from two different services and a keeper's rank comes from a
+// third: two lookups of one service with one insertion point under two different parent steps
 var fixtureShared = `
 type Query {
   tools: [Tool!]! @owner(s: "A")
@@ -135,11 +136,13 @@ type Gizmo implements Tool & Priced @bnd(s: "A B") {
   stock: Int! @owner(s: "B")
   twin: Gizmo @owner(s: "B")
   maker: Maker @owner(s: "A")
+  keeper: Maker @owner(s: "B")
 }
+type Wrench implements Tool @bnd(s: "A C") { id: ID! label: String @owner(s: "A") keeper: Maker @owner(s: "C") }
 type Hammer implements Tool @svc(s: "A") { label: String heft: Int! maker: Maker }
 type Ticket implements Priced @svc(s: "B") { price: Int seat: String! }
 union Found @svc(s: "B") = Gizmo | Ticket
-type Maker @bnd(s: "B C") { id: ID! nick: String @owner(s: "B") age: String @owner(s: "C") }
+type Maker @bnd(s: "B C A") { id: ID! nick: String @owner(s: "B") age: String @owner(s: "C") rank: Int @owner(s: "A") }
 `
 
 type fixture struct {
